@@ -30,7 +30,8 @@ PROPS = {
     "C04": dict(units=["comm"], kani=[], level="proof"),
     "C05": dict(units=["spawn"], kani=["w_make_standard_stream", "w_dup2", "w_pipe", "w_set_inheritable"], level="proof"),
     "C06": dict(units=["spawn", "exec", "builder"], kani=["w_fork_ids", "w_os_to_cstring_b4"], level="proof",
-                natives=[("units/native/format_env.nt.rs", "9331 environment lists: all lists of 0..5 entries over the names {A,B,CC} and the values {empty, x}")]),
+                natives=[("units/native/format_env.nt.rs", "9331 environment lists: all lists of 0..5 entries over the names {A,B,CC} and the values {empty, x}"),
+                         ("units/native/cvec.nt.rs", "11132 argument vectors: 0..3 strings of length 0..3 (pairs/triples 0..2) over the bytes {a, /, NUL, 0xff}; pointer table read back through raw pointers")]),
     "C07": dict(units=["spawn", "exec"], kani=["w_pipe", "w_fork_ids"], level="proof"),
     "C15": dict(units=["exec", "splitpath"], kani=["b_split_path_b3"], level="proof",
                 bounded_scenarios=[("c15_path_lookup", "198 lookups on a real file system: all 64 placements of {nothing, non-executable file, directory, executable} under 3 PATH directories x 3 PATH spellings (plain, with empty and duplicate entries), plus 6 slash / explicit-executable cases")]),
